@@ -304,6 +304,9 @@ where
   let s = &(*shares.peek().ok_or("no shares passed")?).clone();
   let shares: Vec<star_sharks::Share> = shares.cloned().map(|s| s.S).collect();
   let key = Sharks::from(s.A.clone()).recover(&shares)?;
+  if key.len() < 16 {
+    return Err("recovered secret is too short to hold a key".into());
+  }
   let K = key[..16].to_vec();
 
   let mut key = Strobe::new(b"adss encrypt", SecParam::B128);
